@@ -90,15 +90,45 @@ def scratch_base() -> pathlib.Path:
     raise HarnessError("no scratch directory available")
 
 
+def scratch_owner_alive(d: pathlib.Path) -> bool:
+    """Is the world directory d (lspv-w-<tag>, owner pid recorded in .owner) held by another live
+    process?  A directory without an owner record counts as held while it is fresh (being created)."""
+    try:
+        pid = int((d / ".owner").read_text().strip())
+    except (OSError, ValueError):
+        try:
+            return time.time() - d.stat().st_mtime < 10.0
+        except OSError:
+            return False
+    if pid == os.getpid():
+        return False
+    try:
+        os.kill(pid, 0)
+        return True
+    except ProcessLookupError:
+        return False
+    except PermissionError:
+        return True
+
+
 def cleanup_stale_scratch() -> int:
     """Remove scratch trees left behind by checker processes that no longer exist (a check killed by a
     timeout cannot remove its own worlds).  Only directories named lspv-<pid>-… whose pid is dead."""
     import re
-    import shutil
+    import shutil as _shutil
 
     n = 0
     base = scratch_base()
     for d in base.glob("lspv-*"):
+        if d.name.startswith("lspv-w-"):
+            try:
+                mine = (d / ".owner").read_text().strip() == str(os.getpid())
+            except OSError:
+                mine = False
+            if not mine and not scratch_owner_alive(d):
+                _shutil.rmtree(d, ignore_errors=True)
+                n += 1
+            continue
         m = re.match(r"lspv-(?:mut-)?(\d+)-", d.name)
         if not m:
             continue
